@@ -68,20 +68,22 @@ Section Eval.
     match nth_error (w_states w) id with Some s => s | None => {| os_mem := None; os_forced := false |} end.
 
   (* what the generated run() records and logs (harness convention): two records, one log token *)
-  Definition run_records (ins : list (str * value)) : list value :=
-    [VDict [(lit "inputs", VInt (Z.of_nat (List.length ins)))]; VStr (lit "second")].
+  (* n: the ordinal of this run among all runs started on the data directory so far (harness convention: the
+     generated run records it, so that the records of different runs of one task differ) *)
+  Definition run_records (n : nat) (ins : list (str * value)) : list value :=
+    [VDict [(lit "inputs", VInt (Z.of_nat (List.length ins))); (lit "run", VInt (Z.of_nat n))]; VStr (lit "second")].
   Definition run_token (tc : tclass) : str := lit "token:" ++ c_slug tc.
 
   Definition skv_leb (a b : str * value) : bool := str_leb (fst a) (fst b).
 
   (* the record written by _finish_run_info, minus user name, class/module names, version and times;
      mapping keys in sorted order *)
-  Definition run_info (tc : tclass) (o : obj) (ins : list (str * value)) : value :=
+  Definition run_info (tc : tclass) (o : obj) (n : nat) (ins : list (str * value)) : value :=
     VDict [ (lit "config", VDict [ (lit "context", match o_ctxname o with Some n => VStr n | None => VNone end);
                                    (lit "name", VStr (o_cfgname o ++ lit "/" ++ o_fullname o));
                                    (lit "namespace", match o_ns o with Some n => VStr n | None => VNone end) ]);
             (lit "input_tasks", VDict (isort skv_leb (map (fun nk => (fst nk, VStr (snd nk))) (o_inkeys o))));
-            (lit "log", VList (run_records ins));
+            (lit "log", VList (run_records n ins));
             (lit "parameters", VDict (isort skv_leb (map (fun pv => (pd_name (fst pv), VStr (value_repr (fst pv) (fst (snd pv))))) (o_params o))));
             (lit "task", VStr (c_slug tc)) ].
 
@@ -155,7 +157,7 @@ Section Eval.
                               let v := run (o_cls o) (persisted_reprs o) ins in
                               let st1 := dset (log_path tc o) (FLog [run_token tc]) (w_store w4) in
                               let st2 := if persisting (c_data tc) then dset final (FValue v) st1 else st1 in
-                              let st3 := dset (info_path tc o) (FInfo (run_info tc o ins)) st2 in
+                              let st3 := dset (info_path tc o) (FInfo (run_info tc o (List.length (w_runlog w3)) ins)) st2 in
                               (set_state id {| os_mem := Some v; os_forced := os_forced s |} (with_store st3 w4), inl v)
                           end
                         end
